@@ -317,6 +317,8 @@ def c09(tier):
         'phases': [
             {'kind': 'drive', 'profile': 'all', 'traces': 200 if q else 4000, 'steps': 80},
             {'kind': 'drive', 'profile': 'burst', 'traces': 160 if q else 3000, 'steps': 0},
+            {'kind': 'drive', 'profile': 'kernel', 'traces': 300 if q else 6000, 'steps': 0},
+            {'kind': 'drive', 'profile': 'aggkernel', 'traces': 200 if q else 4000, 'steps': 0},
         ],
     }
 
@@ -360,6 +362,8 @@ def c06(tier):
              'sample': 0.025 if q else 0.5},
             {'kind': 'replay', 'model': MS('serial_S6', 'serial', 'S6'), 'kinds': ALLKINDS[:8], 'sample': 0.01 if q else 0.3, 'extra': ['-opfilter', 'ser']},
             {'kind': 'drive', 'profile': 'legal', 'traces': 120 if q else 2500, 'steps': 40},
+            {'kind': 'drive', 'profile': 'legal', 'traces': 48 if q else 800, 'steps': 20, 'extra': ['-spread', '4096']},
+            {'kind': 'drive', 'profile': 'kernel', 'traces': 300 if q else 6000, 'steps': 0},
             {'kind': 'drive', 'profile': 'serial', 'traces': 80 if q else 1500, 'steps': 40},
             {'kind': 'drive', 'profile': 'serial', 'traces': 48 if q else 800, 'steps': 25, 'extra': ['-spread', '4096']},
         ],
